@@ -22,6 +22,7 @@ for an instance with different verdicts, which is the concrete, replayable viola
 from __future__ import annotations
 
 import json
+import time
 import tempfile
 
 from harness import common
@@ -341,7 +342,10 @@ def judge(ck, case, im):
 
 
 def run(ck: common.Check):
+    _t = [time.time()]
     ck.prove(["GeffProps.C08"])
+    _ph = {"prove": round(time.time() - _t[0], 1)}
+    _t[0] = time.time()
     mc.init_env()
     ck.rule = ("cases = corpus + all presence subsets of the optional top-level keys x 3 axis shapes + every unit x axis type "
                "and every dtype + seeded random valid documents (nested unicode `extra`, infinite bounds, aliases of dtype "
@@ -365,7 +369,8 @@ def run(ck: common.Check):
         if "doc" in c:
             c["mut_idx"] = None
     impl = common.pmap(impl_obs, cases, chunksize=16)
-
+    _ph["implementation+jsonschema"] = round(time.time() - _t[0], 1)
+    _t[0] = time.time()
     drv = ck.driver()
     reqs, owners = [], []
     for idx, (c, im) in enumerate(zip(cases, impl)):
@@ -380,7 +385,11 @@ def run(ck: common.Check):
                 continue
             reqs.append({"op": "validate", "env": mc.make_env_light(m["inst"]), "which": "published", "inst": e})
             owners.append((idx, "mut", mi))
+    _ph["requests"] = round(time.time() - _t[0], 1)
+    _t[0] = time.time()
     model = drv.ask(reqs)
+    _ph["lean_driver"] = round(time.time() - _t[0], 1)
+    ck.extra["phase_seconds"] = _ph
     if model is None:
         ck.broken.append({"what": "driver Drivers/C08.lean", "detail": drv.broken})
     nm = nmut_dis = 0
